@@ -31,9 +31,12 @@ try:
     res['demo_with_mutant'] = rc1
     if not skip_suite:
         t = time.time()
-        r = subprocess.run(['/venv/bin/python', '-m', 'pytest', '-q', '-p', 'no:cacheprovider', '--timeout=900', '-n', '8', '--deselect', 'tests/types/test_typehints.py'], cwd=d, capture_output=True, text=True)
+        r = subprocess.run(['/venv/bin/python', '-m', 'pytest', '-q', '-ra', '-p', 'no:cacheprovider', '--timeout=900', '-n', '6', '--deselect', 'tests/types/test_typehints.py'], cwd=d, capture_output=True, text=True)
         last = [l for l in r.stdout.splitlines() if 'passed' in l or 'failed' in l][-1:]
         res['suite_with_mutant'] = last[0] if last else r.stdout[-200:]
+        failed = [l for l in r.stdout.splitlines() if l.startswith('FAILED') or l.startswith('ERROR')]
+        if failed:
+            res['suite_failures'] = failed[:5]
     env = dict(os.environ, VERIF_REPO=d, VERIF_NOEVIDENCE='1')
     r = subprocess.run(['python3-vt', '/verif/check.py', 'all'], env=env, capture_output=True, text=True)
     caught = {}
